@@ -180,6 +180,19 @@ CHECKS.update({
             "DESIGN.md §3 C12"),
 })
 
+CHECKS.update({
+    "C15": ("exploration",
+            "contract with snapshot on the real HierarchyWalker.visit_instance (only `of` may change) plus table-driven boundary "
+            "oracles: before/after package equality modulo targets, selection and sizing judged by the PDK's own tables, R4 + "
+            "netlisting of the compiled package, idempotence, compile forms, descriptive errors",
+            "Every entry of every device table of the four PDKs x four size patterns, at depth 1 and 3 with a shared sub-module and "
+            "unmapped neighbours, compiled once and twice; all 84 type/family/threshold triples per PDK; the five forms of "
+            "hdl21.pdk.compile; logic cells instantiated with all ports connected and netlisted (320 sampled in quick, all ~3100 in "
+            "thorough).",
+            "the PDK tables are the selection / sizing oracle; descriptive error = RuntimeError/ValueError with a message",
+            "DESIGN.md §3 C15"),
+})
+
 NOT_APPLICABLE = {}
 
 
